@@ -6,11 +6,13 @@ cd "$(dirname "$0")"
 OV=$(python3 -c "
 import glob,os;print(','.join('/repo/%s=%s'%(os.path.basename(f),f) for f in sorted(glob.glob('harness/stun/zz_vx_*.go'))))" | sed "s#=harness#=$(pwd)/harness#g")
 H=${1:-vh_C19_value,vh_C19_readvalue,vh_C19_selftest,vh_C13_collect,vh_C06_unknownattrs,vh_C01_selftest,vh_C02_framing,vh_C09_ip}
+n=0
 for sv in "z3 -in" "z3-new -in" "cvc5 --incremental --lang smt2"; do
+  n=$((n+1))
   echo "== $sv"
-  GOSYMX_SOLVER="$sv" bin/gosymx -overlay "$OV" -harness "$H" -workers 8 -v -out /dev/null 2>&1 | grep -v WARNING | sed 's/solver=[0-9.]*s wall=[0-9.]*s//' | sort > /tmp/xs.$$.$(echo $sv | cut -c1-4 | tr -d ' ')
-  cat /tmp/xs.$$.$(echo $sv | cut -c1-4 | tr -d ' ')
+  GOSYMX_SOLVER="$sv" bin/gosymx -overlay "$OV" -harness "$H" -workers 8 -v -out /dev/null 2>&1 | grep -v WARNING | sed 's/solver=[0-9.]*s wall=[0-9.]*s//' | sort > /tmp/xs.$$.$n
+  cat /tmp/xs.$$.$n
 done
-if cmp -s /tmp/xs.$$.z3 /tmp/xs.$$.z3-n && cmp -s /tmp/xs.$$.z3 /tmp/xs.$$.cvc5; then echo "CROSS-SOLVER: agree"; rc=0; else echo "CROSS-SOLVER: DISAGREE"; rc=1; fi
+if cmp -s /tmp/xs.$$.1 /tmp/xs.$$.2 && cmp -s /tmp/xs.$$.1 /tmp/xs.$$.3; then echo "CROSS-SOLVER: agree"; rc=0; else echo "CROSS-SOLVER: DISAGREE"; rc=1; fi
 rm -f /tmp/xs.$$.*
 exit $rc
